@@ -357,6 +357,9 @@ pub struct Ics20Scen {
     flights: Vec<Flight>,
     legacy: bool,
     seed: u64,
+    /// native denom of the form `xcw20:<token0>`
+    xdenom: String,
+    header_denoms: Option<Vec<String>>,
 }
 
 fn build_app() -> IcsApp {
@@ -376,6 +379,8 @@ impl Ics20Scen {
             flights: vec![],
             legacy: false,
             seed: 0,
+            xdenom: String::new(),
+            header_denoms: None,
         };
         s.setup();
         s
@@ -434,6 +439,12 @@ impl Ics20Scen {
                 .unwrap();
             tokens.push(t);
         }
+        // a third native denom that merely CONTAINS `cw20:<token>` (legal for a bank denom): it must stay native
+        self.xdenom = format!("xcw20:{}", tokens[0]);
+        for a in pool.iter().chain(std::iter::once(&reserve)) {
+            let amount = vec![coin(if *a == reserve { FUND * 16 } else { FUND }, self.xdenom.clone())];
+            app.sudo(SudoMsg::Bank(BankSudo::Mint { to_address: a.to_string(), amount })).unwrap();
+        }
         self.app = app;
         self.pool = pool;
         self.tokens = tokens;
@@ -486,8 +497,18 @@ impl Ics20Scen {
         )
     }
 
-    fn all_denoms(&self) -> Vec<String> {
+    fn denoms(&self) -> Vec<String> {
+        // a replayed trace names its denoms in the header
+        if let Some(ds) = &self.header_denoms {
+            return ds.clone();
+        }
         let mut v: Vec<String> = DENOMS.iter().map(|d| d.to_string()).collect();
+        v.push(self.xdenom.clone());
+        v
+    }
+
+    fn all_denoms(&self) -> Vec<String> {
+        let mut v: Vec<String> = self.denoms();
         for t in &self.tokens {
             v.push(format!("cw20:{t}"));
         }
@@ -566,8 +587,8 @@ impl Ics20Scen {
         let mut bal = vec![];
         for a in &self.pool {
             let mut parts = vec![a.to_string()];
-            for d in DENOMS {
-                parts.push(self.bank_bal(a, d).to_string());
+            for d in self.denoms() {
+                parts.push(self.bank_bal(a, &d).to_string());
             }
             for t in &self.tokens {
                 parts.push(self.tok_bal(t, a).to_string());
@@ -920,6 +941,7 @@ impl Ics20Scen {
 
 impl Scenario for Ics20Scen {
     fn start(&mut self, seed: u64, trace: u64) -> String {
+        self.header_denoms = None;
         self.setup();
         let header = format!(
             "scenario ics20 seed={} trace={} pool={} tokens={} faulty={} denoms={} chans={} fund={}",
@@ -928,7 +950,7 @@ impl Scenario for Ics20Scen {
             self.pool.iter().map(|a| a.to_string()).collect::<Vec<_>>().join(","),
             self.tokens.iter().map(|a| a.to_string()).collect::<Vec<_>>().join(","),
             self.tokens[1],
-            DENOMS.join(","),
+            self.denoms().join(","),
             CHANS.join(","),
             FUND
         );
@@ -940,6 +962,8 @@ impl Scenario for Ics20Scen {
         let a = Args::parse(header);
         self.setup();
         self.seed = a.u64("seed");
+        let ds = a.list("denoms");
+        self.header_denoms = if ds.is_empty() { None } else { Some(ds) };
     }
 
     fn gen_op(&mut self, rng: &mut Rng, _step: usize) -> String {
@@ -1029,7 +1053,8 @@ impl Scenario for Ics20Scen {
             let tm = self.gen_transfer_msg(rng);
             let k = rng.below(20);
             if k < 8 {
-                let d = *rng.pick(&DENOMS);
+                let ds = self.denoms();
+                let d: &str = rng.pick(&ds).as_str();
                 let amt = { let base = 1 + rng.below(3000) as u128; self.amount_near(rng, base) };
                 let funds = match rng.below(20) {
                     0 => "-".to_string(),
